@@ -752,7 +752,11 @@ class Evaluator:
                 if x.ty == STR and v.format_spec is None and v.conversion == -1:
                     parts.append(x.t)
                 else:
-                    parts.append(fresh('fmt', z3.StringSort()))  # text of a formatted non-string: abstract
+                    if x.ty in (INT, REAL, BOOL) and v.format_spec is None and v.conversion == -1:
+                        # str() of a number inside an f-string: a function of the value (LC-NUMTEXT)
+                        parts.append(z3.Function('py_str_' + x.ty.name, x.ty.sort(), z3.StringSort())(x.t))
+                    else:
+                        parts.append(fresh('fmt', z3.StringSort()))  # text of a formatted non-string: abstract
             else:
                 raise OutOfSubset('f-string part')
         if not parts:
